@@ -287,6 +287,138 @@ type shape struct {
 	hasTs  bool
 }
 
+// one field 253 of the given kind around timestamp ts (kind 0 = the plain uint32 date-time)
+func tsFieldOfKind(rng *Rng, arch byte, ts uint32, kind int) wField {
+	u32 := func(bt basetype.BaseType, v uint32) wField {
+		return wField{num: 253, bt: int(bt), tag: int(proto.TypeUint32), data: putU32(arch, v)}
+	}
+	switch kind {
+	case 1: // invalid value kept in the message
+		count("ts:invalid")
+		return u32(basetype.Uint32, 0xFFFFFFFF)
+	case 2: // below DateTimeMin (a system time)
+		count("ts:below-min")
+		return u32(basetype.Uint32, []uint32{uint32(rng.Intn(0x10000000)), 0x0FFFFFFF, 0, uint32(rng.Intn(32)), ts & 0x0FFFFFFF, 0x0FFFFFFF - uint32(rng.Intn(31))}[rng.Intn(6)])
+	case 3: // one byte
+		count("ts:uint8")
+		return wField{num: 253, bt: int(basetype.Uint8), tag: int(proto.TypeUint8), data: []byte{byte(rng.Intn(256))}}
+	case 4: // array of uint32: 2, 1 or 3 elements
+		count("ts:array")
+		n := []int{2, 2, 1, 3}[rng.Intn(4)]
+		var d []byte
+		for i := 0; i < n; i++ {
+			d = append(d, putU32(arch, ts+uint32(i))...)
+		}
+		return wField{num: 253, bt: int(basetype.Uint32), tag: int(proto.TypeSliceUint32), data: d}
+	case 5: // uint32z: a plain uint32 as far as timestamps go
+		count("ts:uint32z")
+		return u32(basetype.Uint32z, ts)
+	case 6: // uint32 value declared with another base type
+		count("ts:basetype-mismatch")
+		return u32([]basetype.BaseType{basetype.Sint32, basetype.Uint8, basetype.Float32, basetype.Byte, basetype.Uint16, basetype.String}[rng.Intn(6)], ts)
+	case 7: // the four bytes as a byte array declared uint32 (every decoder reads a uint32, the encoder cannot tell)
+		count("ts:bytes")
+		return wField{num: 253, bt: int(basetype.Uint32), tag: int(proto.TypeSliceUint8), data: putU32(arch, ts)}
+	case 8: // other types
+		count("ts:other-type")
+		switch rng.Intn(3) {
+		case 0:
+			return wField{num: 253, bt: int(basetype.String), tag: int(proto.TypeString), data: []byte{'a', 'b', 0}}
+		case 1:
+			return wField{num: 253, bt: int(basetype.Sint32), tag: int(proto.TypeInt32), data: putU32(arch, ts)}
+		default:
+			return wField{num: 253, bt: int(basetype.Uint16), tag: int(proto.TypeUint16), data: putU32(arch, ts)[:2]}
+		}
+	case 9: // size 0: the decoder skips the field
+		count("ts:empty")
+		return wField{num: 253, bt: int(basetype.Uint32), tag: int(proto.TypeSliceUint32), data: nil}
+	}
+	return u32(basetype.Uint32, ts)
+}
+
+// addTsFields moves the running timestamp and inserts the message's field(s) 253.
+func addTsFields(rng *Rng, arch byte, ts *uint32, wild bool, fields []wField) []wField {
+	if !wild {
+		// monotone small steps, equal, backwards, gaps
+		switch rng.Intn(14) {
+		case 0, 1, 2, 3, 4:
+			*ts += uint32(rng.Intn(4))
+		case 5:
+			*ts += uint32(rng.Intn(40))
+		case 6:
+			*ts += 31
+		case 7:
+			*ts += 32
+		case 8:
+			*ts -= uint32(rng.Intn(40))
+		case 9:
+			*ts += 1000
+		}
+	} else {
+		switch rng.Intn(13) {
+		case 0, 1, 2:
+			*ts += uint32(rng.Intn(4))
+		case 3:
+			*ts += uint32(rng.Intn(32))
+		case 4: // back, inside the window
+			*ts -= uint32(1 + rng.Intn(31))
+		case 5: // back, beyond the window
+			*ts -= uint32(32 + rng.Intn(70))
+		case 6:
+			*ts += 31
+		case 7:
+			*ts += 32
+		case 8: // just below a multiple of 32: the next small steps wrap the 5-bit offset
+			*ts = (*ts | 31) - uint32(rng.Intn(2))
+		case 9:
+			*ts += 1000
+		case 10:
+			*ts -= 1000
+		case 11: // back by exactly the window / a multiple of it: same offset bits, other time
+			*ts -= uint32(32 * (1 + rng.Intn(3)))
+		}
+	}
+	odd, dup := 30, 40
+	if wild {
+		odd, dup = 5, 6
+	}
+	kind := 0
+	if rng.Intn(odd) == 0 {
+		kind = 1 + rng.Intn(9)
+	}
+	tf := tsFieldOfKind(rng, arch, *ts, kind)
+	pos := 0
+	if rng.Intn(3) == 0 && len(fields) > 0 {
+		pos = rng.Intn(len(fields) + 1)
+	}
+	fields = append(fields[:pos:pos], append([]wField{tf}, fields[pos:]...)...)
+	for rng.Intn(dup) == 0 { // further fields 253, before or behind the first
+		count("ts:duplicate")
+		var df wField
+		switch rng.Intn(6) {
+		case 0:
+			df = tsFieldOfKind(rng, arch, *ts+5, 0)
+		case 1:
+			df = tsFieldOfKind(rng, arch, *ts-5, 0)
+		case 2:
+			df = tsFieldOfKind(rng, arch, *ts+100, 0)
+		case 3:
+			df = tsFieldOfKind(rng, arch, *ts, 0)
+		default:
+			df = tsFieldOfKind(rng, arch, *ts+uint32(rng.Intn(3)), 1+rng.Intn(9))
+		}
+		p := len(fields)
+		if rng.Intn(2) == 0 {
+			p = rng.Intn(len(fields) + 1)
+		}
+		fields = append(fields[:p:p], append([]wField{df}, fields[p:]...)...)
+		if rng.Intn(2) == 0 { // the following messages continue from the duplicate's time
+			*ts += 5
+		}
+	}
+	return fields
+}
+
 func genEncW(emit func(string), tier string, rng *Rng) {
 	n := 6000
 	if tier == "thorough" {
@@ -343,8 +475,19 @@ func genEncW(emit func(string), tier string, rng *Rng) {
 			}
 		}
 		ts := uint32(0x10000000 + rng.Intn(1<<28))
-		if rng.Intn(10) == 0 {
-			ts = 0xFFFFFFE0 + uint32(rng.Intn(31))
+		switch rng.Intn(10) {
+		case 0:
+			ts = 0xFFFFFFE0 + uint32(rng.Intn(31)) // next to the invalid sentinel and to the uint32 wrap
+		case 1:
+			ts = 0x10000000 + uint32(rng.Intn(40)) // next to DateTimeMin
+		}
+		// a third of the operations have "wild" timestamp histories: going back inside and beyond the 32 s window,
+		// crossing the 5-bit offset boundary, invalid / too small values, several fields 253, odd types and sizes
+		wild := rng.Intn(3) == 0
+		if wild {
+			count("ts-history=wild")
+		} else {
+			count("ts-history=calm")
 		}
 		for f := 0; f < nfiles; f++ {
 			file := wFile{size: []int{14, 14, 12, 0, 13}[rng.Intn(5)], protoVer: []int{0x20, 0x20, 0x20, 0x20, 0x20, 0x23, 0x2F, 0, 0x10}[rng.Intn(9)],
@@ -368,40 +511,7 @@ func genEncW(emit func(string), tier string, rng *Rng) {
 				}
 				m.devs = append(m.devs, s.devs...)
 				if s.hasTs {
-					// timestamp behaviour: monotone small steps, equal, backwards, gaps, below min, invalid, odd types
-					switch rng.Intn(14) {
-					case 0, 1, 2, 3, 4:
-						ts += uint32(rng.Intn(4))
-					case 5:
-						ts += uint32(rng.Intn(40))
-					case 6:
-						ts += 31
-					case 7:
-						ts += 32
-					case 8:
-						ts -= uint32(rng.Intn(40))
-					case 9:
-						ts += 1000
-					}
-					tf := wField{num: 253, bt: int(basetype.Uint32), tag: int(proto.TypeUint32), data: putU32(arch, ts)}
-					switch rng.Intn(30) {
-					case 0:
-						tf.data = putU32(arch, 0xFFFFFFFF)
-					case 1:
-						tf.data = putU32(arch, uint32(rng.Intn(0x10000000)))
-					case 2:
-						tf = wField{num: 253, bt: int(basetype.Uint8), tag: int(proto.TypeUint8), data: []byte{byte(rng.Intn(256))}}
-					case 3:
-						tf = wField{num: 253, bt: int(basetype.Uint32), tag: int(proto.TypeSliceUint32), data: append(putU32(arch, ts), putU32(arch, ts+1)...)}
-					}
-					pos := 0
-					if rng.Intn(3) == 0 && len(m.fields) > 0 {
-						pos = rng.Intn(len(m.fields) + 1)
-					}
-					m.fields = append(m.fields[:pos], append([]wField{tf}, m.fields[pos:]...)...)
-					if rng.Intn(40) == 0 { // a second field 253
-						m.fields = append(m.fields, wField{num: 253, bt: int(basetype.Uint32), tag: int(proto.TypeUint32), data: putU32(arch, ts+5)})
-					}
+					m.fields = addTsFields(rng, arch, &ts, wild, m.fields)
 				}
 				file.msgs = append(file.msgs, m)
 			}
